@@ -12,9 +12,55 @@ package object_patch
 //@ ghost lastSpecs []OperationSpec
 //@ ghost lastDecodeErr error
 //@ trusted func unmarshalFromJSONOrYAML
-//@   modifies lastSpecs, lastDecodeErr
+//@   modifies lastSpecs, lastDecodeErr, nDocs, docLog, lastDecErr
 //@   ghostset lastSpecs := result0
 //@   ghostset lastDecodeErr := result1
+
+// Ghost log of the documents a stream decoder produced (one entry per Decode that returned no
+// error) and the latest decoder error. What the decoders make of the bytes is assumed.
+//@ ghost nDocs int
+//@ ghost docLog map[int]OperationSpec
+//@ ghost lastDecErr error
+//@ package encoding/json
+//@ trusted func (*Decoder).Decode
+//@   modifies object_patch.nDocs, object_patch.docLog, object_patch.lastDecErr
+//@   ghostset object_patch.lastDecErr := result
+//@   ensures result == nil && dyntype(v, *object_patch.OperationSpec) ==> object_patch.nDocs == old(object_patch.nDocs) + 1 && object_patch.docLog[old(object_patch.nDocs)] == *v.(*object_patch.OperationSpec)
+//@   ensures result != nil ==> object_patch.nDocs == old(object_patch.nDocs)
+//@   ensures forall(k, 0, old(object_patch.nDocs), object_patch.docLog[k] == old(object_patch.docLog[k]))
+//@ package gopkg.in/yaml.v3
+//@ trusted func (*Decoder).Decode
+//@   modifies object_patch.nDocs, object_patch.docLog, object_patch.lastDecErr
+//@   ghostset object_patch.lastDecErr := result
+//@   ensures result == nil && dyntype(v, *object_patch.OperationSpec) ==> object_patch.nDocs == old(object_patch.nDocs) + 1 && object_patch.docLog[old(object_patch.nDocs)] == *v.(*object_patch.OperationSpec)
+//@   ensures result != nil ==> object_patch.nDocs == old(object_patch.nDocs)
+//@   ensures forall(k, 0, old(object_patch.nDocs), object_patch.docLog[k] == old(object_patch.docLog[k]))
+//@ package io
+//@ package github.com/flant/shell-operator/pkg/kube/object_patch
+
+// C13: a stream yields exactly the documents its decoder produced, each once and in order - none
+// is dropped, whatever it contains -, and a decoder error other than the end of the stream fails
+// the whole stream.
+//@ func unmarshalFromYaml
+//@   prop C13
+//@   requires nDocs >= 0
+//@   requires [assumed:io.EOF-is-a-non-nil-error] io.EOF != nil
+//@   modifies nDocs, docLog, lastDecErr, allelems(OperationSpec)
+//@   ensures [count] result1 == nil ==> len(result0) == nDocs - old(nDocs)
+//@   ensures [every-document-in-order] result1 == nil ==> forall(j, 0, len(result0), result0[j] == docLog[old(nDocs) + j])
+//@   ensures [decoder-error-fails] result1 == nil ==> lastDecErr == io.EOF
+//@   loop 1
+//@     invariant nDocs >= old(nDocs) && len(specSlice) == nDocs - old(nDocs) && forall(j, 0, len(specSlice), specSlice[j] == docLog[old(nDocs) + j])
+//@ func unmarshalFromJson
+//@   prop C13
+//@   requires nDocs >= 0
+//@   requires [assumed:io.EOF-is-a-non-nil-error] io.EOF != nil
+//@   modifies nDocs, docLog, lastDecErr, allelems(OperationSpec)
+//@   ensures [count] result1 == nil ==> len(result0) == nDocs - old(nDocs)
+//@   ensures [every-document-in-order] result1 == nil ==> forall(j, 0, len(result0), result0[j] == docLog[old(nDocs) + j])
+//@   ensures [decoder-error-fails] result1 == nil ==> lastDecErr == io.EOF
+//@   loop 1
+//@     invariant nDocs >= old(nDocs) && len(specSlice) == nDocs - old(nDocs) && forall(j, 0, len(specSlice), specSlice[j] == docLog[old(nDocs) + j])
 
 // validity of one document (OpenAPI schema v0) and the operation it denotes, as functions of the document
 //@ specfn SpecValid(s OperationSpec) bool
